@@ -7,14 +7,28 @@
 (* the script independent of who lists the keys in which order) and the    *)
 (* property text - not from the library.                                   *)
 (*                                                                         *)
-(* Configuration  cfg = [n, m, holder, afs, height]:  n cosigner keys 1..n, *)
-(* threshold m,                                                            *)
+(* Configuration  cfg = [n, m, holder, afs, height, knows]:  n cosigner    *)
+(* keys 1..n, threshold m,                                                 *)
 (* m, and W = Len(holder) cosigner *wallets*; wallet w holds key           *)
 (* holder[w] privately and the other keys publicly (two wallets may hold   *)
 (* the same key: they are then the same signer).  afs[w]: wallet w was     *)
 (* created with anti-fee-sniping (its own proposals get locktime = height, *)
 (* the current block height); such per-wallet settings shape what a wallet *)
-(* proposes and must not touch what it imports.                            *)
+(* proposes and must not touch what it imports.  knows[w]: what wallet w   *)
+(* knows about the output being spent when a copy arrives:                 *)
+(*   "utxo"  it has a record of the output (it updated its UTXOs)          *)
+(*   "keys"  it has derived the address but never fetched UTXOs (an        *)
+(*           offline / air-gapped signer)                                  *)
+(*   "none"  it has not even derived the address yet                       *)
+(* An export as object, file or dictionary carries everything an importer  *)
+(* needs (outpoint, amount, address, signatures): a wallet that knows the  *)
+(* keys must accept it, add its signature, and the copy is valid once m    *)
+(* distinct cosigners signed - exactly as for a wallet that knows the      *)
+(* output.  A raw transaction carries neither amount nor (while            *)
+(* incomplete) the address: a wallet without the output may refuse it; a   *)
+(* wallet that has never derived the address may refuse every form.  A     *)
+(* refused import changes nothing.  Only a wallet that knows the output    *)
+(* can propose the spend.                                                  *)
 (*                                                                         *)
 (* Part 1 - agreement.  A wallet is created from the n keys listed in some *)
 (* order (a permutation of 1..n).  The public keys at one derivation path  *)
@@ -80,12 +94,17 @@
 (*   with anti-fee-sniping, ffffffff without), a replace-by-fee signal is  *)
 (*   lost.  Both: see BodyAfter.  The signatures the copy carries were     *)
 (*   made over the old body; nothing is predicted for them afterwards.     *)
+(*   "offline-dict-import-forgets-multisig"  a dictionary imported by a    *)
+(*   wallet that knows only the keys is rebuilt as a single-key input: the *)
+(*   signatures it carries and gets are useless (see OfflineDictBreaks);   *)
+(*   nothing is predicted for the signatures of that copy afterwards.      *)
 (***************************************************************************)
 EXTENDS Naturals, Sequences, FiniteSets
 
 Forms == {"object", "dict", "file", "raw"}
 DeviationNames == {"raw-omits-partial-multisig", "dict-import-send-raises", "resign-scrambles-unattributed-signatures",
-                   "raw-import-applies-importer-locktime", "dict-import-resets-sequences"}
+                   "raw-import-applies-importer-locktime", "dict-import-resets-sequences",
+                   "offline-dict-import-forgets-multisig"}
 
 Perms(n) == {p \in [1..n -> 1..n] : \A i, j \in 1..n : i # j => p[i] # p[j]}
 Range(f) == {f[i] : i \in DOMAIN f}
@@ -112,7 +131,7 @@ Valid(cfg, cp) == cp.has /\ NSig(cp) >= cfg.m
 Exists(s) == \E w \in DOMAIN s.copy : s.copy[w].has
 
 A_Propose(cfg, s, w, body) ==
-    IF Exists(s) THEN {}                               \* one spend per ceremony
+    IF Exists(s) \/ cfg.knows[w] # "utxo" THEN {}      \* one spend per ceremony, proposed by a wallet that knows the output
     ELSE {[s EXCEPT !.copy[w] = [has |-> TRUE, signed |-> {}, body |-> body], !.by[w] = {}]}
 
 A_Sign(cfg, s, w) ==
@@ -137,6 +156,11 @@ BodyAfter(cfg, body, v, form, devs) ==
     THEN [body EXCEPT !.ins = [i \in 1..Len(body.ins) |->
                                  [body.ins[i] EXCEPT !.seq = IF cfg.afs[v] THEN SeqLocktime ELSE SeqFinal]]]
     ELSE body
+
+\* the importer may answer with a refusal (which changes nothing); otherwise the import must succeed
+MayRefuse(cfg, v, form) == cfg.knows[v] = "none" \/ (cfg.knows[v] = "keys" /\ form = "raw")
+\* input class of the deviation: the imported copy is no multisig spend any more
+OfflineDictBreaks(cfg, v, form, devs) == "offline-dict-import-forgets-multisig" \in devs /\ form = "dict" /\ cfg.knows[v] = "keys"
 
 A_HandOff(cfg, s, w, v, form, devs) ==
     IF ~s.copy[w].has \/ w = v THEN {}
